@@ -881,6 +881,16 @@ def c03_programs(tier, sd):
                 ["vsc_randomize_with", [["f1"]], [E(["<", F("f1"), F("f0")])]]]):
         out.append({"tag": "standalone", "desc": "standalone fields %s" % (cl,), "prog": pr, "world": world,
                     "ops": [["set", ["f0"], 9], ["set", ["f1"], -7], ["set", ["f2"], 2], cl, ["set", ["f1"], 100], cl]})
+    # a random-size list inside a non-random sub-object is a constant of the call: content and length stay
+    SubL = {"name": "SubL", "fields": [["l", "list", ["u", 8], 0, True, True], fld("x", ("u", 8))], "blocks": [["sl", "c", [E(["<=", ["size", ["l"]], lit(4)])]]]}
+    for srand in (False, True):
+        TopL = {"name": "TopL", "fields": [["s", "obj", "SubL", srand], ["r", "obj", "SubL", True], fld("a", ("u", 8))],
+                "blocks": [["tl", "c", [E(["<", F("a"), lit(100)])]]]}
+        out.append({"tag": "randsz_in_subobject", "desc": "random-size list inside a %s sub-object" % ("random" if srand else "non-random"),
+                    "prog": {"enums": {}, "classes": [SubL, TopL]}, "world": [["top", "obj", "TopL"]],
+                    "ops": [["list_append", ["top", "s", "l"], 5], ["list_append", ["top", "s", "l"], 6], ["set", ["top", "s", "x"], 9], ["randomize", ["top"]], ["randomize", ["top"]],
+                            ["randomize_with", ["top"], [E([">", F("a"), lit(3)])]], ["vsc_randomize", [["top", "r"]]], ["list_append", ["top", "s", "l"], 7], ["randomize", ["top"]],
+                            ["vsc_randomize", [["top", "s"]]], ["randomize", ["top"]]]})
     # free-standing lists as the root of a call: a fixed-size list keeps its length, elements of a list declared non-random are
     # random only when ... they are not: below the root the declaration decides
     for lrand in (True, False):
